@@ -36,7 +36,7 @@ AlphaC == Lits \cup {EscTok} \cup
           Convs({<<>>, <<43>>, <<45>>, <<35>>, <<48>>}, {<<>>, <<48>>, <<50, 53, 54>>}, {<<>>, <<Dot>>, <<Dot, 48, 57>>}, AllForms)
 \* E (thorough): length 3 - more literals and forms
 AlphaE == AlphaA \cup {LitTok(Ord.h), LitTok(Ord.L), LitTok(48), LitTok(45), LitTok(Ord.s), LitTok(32)}
-                 \cup Convs({<<>>, <<45>>}, {<<>>, <<55>>}, {<<>>, <<Dot>>}, {S1("x"), S1("p"), S1("S"), S1("E"), S2("h", "d"), S2("l", "A"), S2("l", "i"), S3("l", "l", "d"), S2("L", "f")})
+                 \cup Convs({<<>>, <<45>>}, {<<>>}, {<<>>, <<Dot>>}, {S1("x"), S1("p"), S1("S"), S1("E"), S2("h", "d"), S2("l", "A"), S2("l", "i"), S3("l", "l", "d"), S2("L", "f")})
 \* S: simulation of long strings over a rich alphabet
 AlphaS == AlphaE \cup AlphaB2
 
